@@ -422,6 +422,27 @@ func c18UsedHolders(c *core.Ctx) {
 		}
 	}
 	c.Check(recycles, "setAuthExternal recycles through RemoveAuthBackendExcept", c.Pos(set.Pos()), "", "call not found")
+	// the names that are read are recorded: used[name] = true on the non-empty branch
+	for _, f := range []*ssa.Function{set, used} {
+		n := 0
+		for _, b := range f.Blocks {
+			for _, in := range b.Instrs {
+				mu, ok := in.(*ssa.MapUpdate)
+				if !ok || !strings.Contains(mu.Map.Type().String(), "map[string]bool") {
+					continue
+				}
+				k := core.Key(mu.Key)
+				if !strings.Contains(k, "AuthBackendName") && !strings.Contains(k, "AuthExternal") && k != "name" && !strings.HasSuffix(k, ".name") {
+					continue
+				}
+				n++
+				who := f.Name()
+				nonEmpty := guardedBy(mu, has(`!= "")`), true) || guardedBy(mu, has(`== "")`), false)
+				c.Check(core.IsConstBool(mu.Value, true) && nonEmpty, who+" marks a referenced auth proxy as used", at(c, mu), "", "the name `"+k+"` is stored as "+core.Key(mu.Value)+" (or outside the non-empty test): a proxy in use is recycled and handed to another auth service")
+			}
+		}
+		c.Check(n == 1, f.Name()+" records the names it reads", c.Pos(f.Pos()), "", fmt.Sprintf("%d stores into the used set", n))
+	}
 	// complete model: ranges over items / Items()
 	for _, b := range used.Blocks {
 		for _, in := range b.Instrs {
